@@ -327,3 +327,29 @@ Print Assumptions C11_di_series_bound.
 (* the extracted series threshold satisfies the hypothesis *)
 Example C11_di_series_thr_le_1 : 0 < Rdya (fst di_thr_series) (snd di_thr_series) <= 1.
 Proof. destruct (Rdya_small 5764607523034235 59) as [A B]; try reflexivity. split; [exact A | left; exact B]. Qed.
+
+(* ------------------------------------------------------------------------------------------------
+   Semantic tie of gradient._derivative_integral (Proofs/KernelTieC11.v; docs/notes/kernel-tie.md): the term translated on every
+   run from the CURRENT Python body by tools/kernel_extract.py (masks, np.divide(.., where=..) into fresh arrays, the
+   compacting selections dE[~mask_dE] / out[:, mask_dE] = .., np.polyval, the transposition) IS deriv_integral_entry, for any
+   previous contents of `out` and of the arrays allocated for the where= calls (junk) and any positive thresholds; the
+   literals of the source are the constants the model is evaluated with.
+   ------------------------------------------------------------------------------------------------ *)
+From FF Require Import Extracted.Kernels Proofs.KernelTieC11.
+
+Theorem C11_kernels_translated : kernel_untranslated_C11 = nil.
+Proof. exact kernels_translated_C11. Qed.
+
+Theorem C11_kernel_deriv_integral_is_source : forall thr_dE thr_s w (ev : list R) dt junk o p q m n, 0 < thr_dE -> 0 < thr_s ->
+  deriv_integral_entry RO (thr_dE, thr_s) w ev dt p q m n =
+  deriv_integral_entry_src RO thr_dE thr_s w (vg RO ev p) (vg RO ev q) (vg RO ev m) (vg RO ev n) dt junk o p q m n.
+Proof. exact deriv_integral_is_source. Qed.
+Print Assumptions C11_kernel_deriv_integral_is_source.
+
+Theorem C11_kernel_deriv_integral_literals :
+  deriv_integral_entry_src_lit_thr_dE = di_thr_dE /\ deriv_integral_entry_src_lit_thr_s = di_thr_series.
+Proof. split; reflexivity. Qed.
+
+Theorem C11_kernel_ffd_is_source : forall nk (Bm : nat -> nat -> nat -> C (T:=R)) (dB : nat -> nat -> nat -> nat -> nat -> C (T:=R)) a t h o,
+  ffd_entry RO nk (fun k => Bm a k o) (fun k => dB h o t a k) = ffd_entry_src RO nk Bm dB a t h o.
+Proof. exact ffd_is_source. Qed.
